@@ -10,6 +10,7 @@ CONSTANTS
   MaxInits = 2
   Irvs = {11}
   WithFunc = "no"
+  MaxAnn = 3
   EmitOn = TRUE
 SPECIFICATION Spec
 INVARIANT Holds
